@@ -1,0 +1,15 @@
+//go:build verif
+
+package infer
+
+// Contracts for package infer, read by the govc verifier (build tag verif).
+// This file contains no executable code.
+//
+//@ func Scope
+//@   opt modular
+//@   modifies heap
+//
+//@ func OutputSchema
+//@   ensures [explicit-schema-unchanged] outputSchema != nil ==> result == outputSchema && result1 == nil
+//@   ensures [inferred-error-flag-iff-named-error] outputSchema == nil && result1 == nil ==> result != nil && result.ErrorValue == (outputID == "error")
+//@   ensures [schema-or-error] (result1 == nil) != (result == nil)
